@@ -1590,13 +1590,25 @@ class connector( client ):
     def synchronous( self, operations, index=0, fragment=False, multiple=0, timeout=None ):
         """Issue the requested 'operations' synchronously.  Yield each harvested record.
 
+        Raises an Exception if communication ceases (timeout or EOF) before the response to every
+        issued request has been harvested, exactly as pipeline does; otherwise, the "lazy" zip in
+        harvest would silently end the sequence of results early.
+
         """
-        for col in self.harvest(
-                issued=self.issue(
+        requests		= [ 0 ]	# harvest's zip takes an issued request first, then its reply
+        def issuing():
+            for iss in self.issue(
                     operations=operations, index=index, fragment=fragment, multiple=multiple,
-                    timeout=timeout ),
-                timeout=timeout ):
+                    timeout=timeout ):
+                requests[0]    += 1
+                yield iss
+        complete		= 0
+        for col in self.harvest( issued=issuing(), timeout=timeout ):
+            complete	       += 1
             yield col
+        assert complete == requests[0], \
+            "Communication ceased before harvesting all synchronous responses: %3d/%3d" % (
+                complete, requests[0] )
 
     def pipeline( self, operations, index=0, fragment=False, multiple=0, timeout=None, depth=1 ):
         """Issue the requested 'operations', allowing up to 'depth' outstanding requests to be in the
